@@ -83,29 +83,35 @@ def ident3 (id : Ident) : Option Nat :=
   else if id.num ≥ 100 then some id.num
   else none
 
+/-- indices `idx ∈ [0, n]` whose mask bit `n - idx` is set, ascending: the loop
+    `for idx in range(n + 1): if mask >> (n - idx) & 1` -/
+def setIdx (mask n : Nat) : List Nat := (List.range (n + 1)).filter fun idx => mask.testBit (n - idx)
+
+def prnLabel (T : Tables) (prnmap : List (Nat × Label)) (idx : Nat) : Label :=
+  (assocGet prnmap idx).getD T.na
+
+/-- `sgc = sigmap.get(idx, (NA, NA)); sgc[1] if sigcode else sgc[0]` -/
+def sigLabel (T : Tables) (sigmap : List (Nat × Label × Label)) (label : Nat) (idx : Nat) : Label :=
+  match assocGet sigmap idx with
+  | some (band, code) => if label = 2 then band else code
+  | none => T.na
+
+/-- cell positions `j < ncells` (satellite-major: satellite `j / nsig`, signal `j % nsig`) whose
+    cell-mask bit is set -/
+def setCells (df396 ncells : Nat) : List Nat :=
+  (List.range ncells).filter fun j => df396.testBit (ncells - (j + 1))
+
 /-- `_getsatcellmaps`; `label = 2` selects the band label, anything else the RINEX code -/
 def satCellMaps (T : Tables) (id : Ident) (label : Nat) (df394 df395 df396 : Nat) :
     Except DecErr (List Label × List (Label × Label)) :=
   match (ident3 id).bind (assocGet T.prnsig) with
   | none => .error .noMap
   | some (prnmap, sigmap) =>
-    -- for idx in range(65): if DF394 >> (64 - idx) & 1
-    let sats : List Label := (List.range 65).filterMap fun idx =>
-      if df394.testBit (64 - idx) then some ((assocGet prnmap idx).getD T.na) else none
-    let sigs : List Label := (List.range 33).filterMap fun idx =>
-      if df395.testBit (32 - idx) then
-        some (match assocGet sigmap idx with
-              | some (band, code) => if label = 2 then band else code
-              | none => T.na)
-      else none
-    let nsat := sats.length
+    let sats : List Label := (setIdx df394 64).map (prnLabel T prnmap)
+    let sigs : List Label := (setIdx df395 32).map (sigLabel T sigmap label)
     let nsig := sigs.length
-    let ncells := nsat * nsig
-    let cells : List (Label × Label) := (List.range ncells).filterMap fun j =>
-      -- idx = j + 1, sat = j / nsig, sig = j % nsig
-      if df396.testBit (ncells - (j + 1)) then
-        some ((sats[j / nsig]?).getD [], (sigs[j % nsig]?).getD [])
-      else none
+    let cells : List (Label × Label) := (setCells df396 (sats.length * nsig)).map fun j =>
+      ((sats[j / nsig]?).getD [], (sigs[j % nsig]?).getD [])
     .ok (sats, cells)
 
 structure Ctx where
